@@ -45,7 +45,9 @@ def evaluate(ctx, res, spec, start, ext_ops, cfg, pre_start_ops=()):
   if instr and st['cur'] != names[m.cur]:
     return bad('C23', 'C23/current-state-after-start', 'current_state() %r after start_at, current state is %s' % (st['cur'], names[m.cur]))
   ctx.count('name_observations')
+  cur_after = {0: m.cur}       # model rest state after k steps
   exp_full = []
+  exp_live_spy = []          # what the live callback must have seen: never emptied by clear_spy()
   exp_trace = []
   exp_live_trace = []
   if instr:
@@ -55,6 +57,7 @@ def evaluate(ctx, res, spec, start, ext_ops, cfg, pre_start_ops=()):
     if st['spy_rtc'] != exp:
       return bad('C19', 'C19/start-spy-differs', 'spy_rtc() after start_at %r expected %r' % (st['spy_rtc'], exp))
     exp_full += exp
+    exp_live_spy += exp
     exp_trace.append(('top', None, names[m.cur]))
     exp_live_trace.append(('start_at', 'top', names[m.cur]))
     if st['ntrace'] != 1 or st['last_trace'] != exp_trace[0]:
@@ -63,6 +66,17 @@ def evaluate(ctx, res, spec, start, ext_ops, cfg, pre_start_ops=()):
   i = 0
   prev_ntrace = st['ntrace']
   for oi, (kind, sig) in enumerate([(None, None)] + list(ext_ops)):
+    if kind == 'clear_spy':
+      ctx.count('clear_spy_calls')
+      if instr and exp_full is not None:
+        exp_full = []
+      continue
+    if kind == 'clear_trace':
+      ctx.count('clear_trace_calls')
+      if instr:
+        exp_trace = []
+        prev_ntrace = 0
+      continue
     if kind is not None:
       qm.ext(kind, sig)
     while qm.q:
@@ -111,10 +125,13 @@ def evaluate(ctx, res, spec, start, ext_ops, cfg, pre_start_ops=()):
           ctx.maxc('max_spy_lines_per_step', len(exp))
           if rec['spy_rtc'] != exp:
             return bad('C19', 'C19/step-spy-differs', 'spy_rtc() after step %d (%s): %r expected %r' % (i, want, rec['spy_rtc'], exp), failing_step=i)
-          exp_full += exp
+          if exp_full is not None:
+            exp_full += exp
+          if exp_live_spy is not None:
+            exp_live_spy += exp
         else:
           ctx.count('steps_beyond_rtc_ring')
-          exp_full = None
+          exp_full = exp_live_spy = None
         dn = rec['ntrace'] - prev_ntrace
         ring_full = prev_ntrace == RING
         prev_ntrace = rec['ntrace']
@@ -131,10 +148,16 @@ def evaluate(ctx, res, spec, start, ext_ops, cfg, pre_start_ops=()):
           if dn != 0:
             return bad('C20', 'C20/record-without-transition', 'step %d (%s, %s): %d new trace records, last %r' % (i, want, skind, dn, rec['last_trace']), failing_step=i)
       i += 1
+      cur_after[i] = m.cur
   if i != len(res.steps):
     return bad('C14', 'C14/extra-step', '%d steps ran, the deque model allows %d' % (len(res.steps), i))
   if qm.q:
     return bad('C14', 'C14/queue-not-empty', 'queue model not empty at the end')
+  if instr:
+    for (k, val) in getattr(res, 'cur_after_queries', ()):
+      ctx.count('current_state_asked_after_queries')
+      if k in cur_after and val != names[cur_after[k]]:
+        return bad('C23', 'C23/current-state-after-query', 'current_state() returned %r right after is_in / child_state queries made after step %d; the chart took no step and rests in %s' % (val, k - 1, names[cur_after[k]]), failing_step=k - 1)
   if instr:
     if exp_full is not None:
       ctx.count('full_spy_compared')
@@ -148,13 +171,13 @@ def evaluate(ctx, res, spec, start, ext_ops, cfg, pre_start_ops=()):
       ctx.count('trace_ring_crossed')
     if res.trace_records != exp_trace[-RING:]:
       return bad('C20', 'C20/full-trace-differs', 'trace has %d records, expected %d; tails %r vs %r' % (len(res.trace_records), len(exp_trace[-RING:]), res.trace_records[-3:], exp_trace[-3:]))
-    if cfg.get('live_spy') and exp_full is not None:
+    if cfg.get('live_spy') and exp_live_spy is not None:
       ctx.count('live_spy_runs')
-      ctx.count('live_spy_lines', len(exp_full))
-      if res.live_spy != exp_full:
-        k = next((j for j, (a, b) in enumerate(zip(res.live_spy, exp_full)) if a != b), min(len(res.live_spy), len(exp_full)))
+      ctx.count('live_spy_lines', len(exp_live_spy))
+      if res.live_spy != exp_live_spy:
+        k = next((j for j, (a, b) in enumerate(zip(res.live_spy, exp_live_spy)) if a != b), min(len(res.live_spy), len(exp_live_spy)))
         return bad('C21', 'C21/live-spy-differs', 'live spy callback got %d lines, %d were produced; first difference at line %d: %r vs %r' % (
-          len(res.live_spy), len(exp_full), k, res.live_spy[k:k + 2], exp_full[k:k + 2]))
+          len(res.live_spy), len(exp_live_spy), k, res.live_spy[k:k + 2], exp_live_spy[k:k + 2]))
     if cfg.get('live_trace'):
       ctx.count('live_trace_runs')
       ctx.count('live_trace_records', len(exp_live_trace))
